@@ -127,7 +127,7 @@ PROPS['C16'] = {
 }
 PROPS['C08'] = {
     'level': 'exploration',
-    'vx': [{'unit': 'attrs'}, {'unit': 'integrity', 'functions': ['try_from', 'check_type_and_len', 'hmac']}],
+    'vx': [{'unit': 'attrs'}, {'unit': 'integrity', 'functions': ['try_from', 'check_type_and_len', 'hmac']}, {'unit': 'writers'}],
     'kx': _ATTR_K,
     'bx': ['c08'],
     'rule': 'Kani complete harnesses for the ten fixed-size attribute types (symbolic type code, 0..=40 symbolic value bytes); BX for the nine variable-length types.',
@@ -135,17 +135,21 @@ PROPS['C08'] = {
                'ERROR-CODE class/number arithmetic on all 65536 byte pairs; ErrorCode::new accepts exactly 300..=699', 'check_len for all lengths and range shapes',
                '(Verus, unit attrs, value strings of ANY length) USERNAME / REALM / NONCE / SOFTWARE / ALTERNATE-DOMAIN: accepted <=> type code, length limit (513 / 763 / none), valid UTF-8; the text encodes to exactly the value bytes. ERROR-CODE: accepted <=> 4..=767 bytes, class 3..6, number <= 99, UTF-8 reason; code and reason exposed. PASSWORD-ALGORITHM(S): accepted <=> positive multiple of 4, every entry algorithm 1|2 with empty parameters; list exposed in order. PRIORITY, USE-CANDIDATE, ICE-CONTROLLED/-CONTROLLING, USERHASH, MESSAGE-INTEGRITY(-SHA256) also in Verus; wrong type => WrongAttributeImplementation',
                '(Verus) encode side within reach: RawAttribute::new; USERNAME/REALM/NONCE/SOFTWARE get_type, length() == UTF-8 byte length, to_raw() carries the type code and exactly the UTF-8 bytes, getters return the text'],
-    'bounded': ['in-place writers (write_into_unchecked: `&mut [u8]` sub-slice copy/fill has no Verus spec) and to_raw of ERROR-CODE / UNKNOWN-ATTRIBUTES / PASSWORD-ALGORITHMS, constructors (vstd specifies str::len only for ASCII), UNKNOWN-ATTRIBUTES decoder (chunks_exact iterator): BX, all lengths 0..=800 with ASCII / multi-byte UTF-8 / invalid UTF-8 fillers'],
+    'bounded': ['(in-place writers of 12 types + raw attributes are proved in unit writers, see C12) writers and to_raw of ERROR-CODE / UNKNOWN-ATTRIBUTES / PASSWORD-ALGORITHMS, constructors (vstd specifies str::len only for ASCII), UNKNOWN-ATTRIBUTES decoder (chunks_exact iterator): BX, all lengths 0..=800 with ASCII / multi-byte UTF-8 / invalid UTF-8 fillers'],
     'trusted': _KX_TRUST,
 }
 PROPS['C12'] = {
     'level': 'exploration',
-    'vx': [{'unit': 'attrs', 'functions': ['to_raw', 'length', 'get_type', "RawAttribute<'a> :: new", 'padded']}],
-    'kx': ['k12_raw_attribute'] + [k for k in _ATTR_K if k not in ('k_check_len', 'k08_error_code_new')],
+    'trusted_extra': ['sub-slice write shims slice_copy_at / slice_fill_at / be_write_uN_at_slice (vx/shims/slices.rs; cross-checked by KX k_shim_slices), String::as_bytes/len = UTF-8 encoding (vx/shims/string.rs)'],
+    'vx': [{'unit': 'writers'}, {'unit': 'attrs', 'functions': ['to_raw', 'length', 'get_type', "RawAttribute<'a> :: new", 'padded']}],
+    'kx': ['k_shim_slices', 'k_shim_write_u16'] + ['k12_raw_attribute'] + [k for k in _ATTR_K if k not in ('k_check_len', 'k08_error_code_new')],
     'bx': ['c12'],
     'rule': 'Kani harnesses: helper check_writers (in-place writer vs RFC layout vs raw conversion, 0xAA-filled oversize buffer, every shorter buffer) on every decodable value of the fixed-size types; BX for variable-length types and builders.',
-    'proved': ['fixed-size types: write_into == RFC layout == to_raw(); exactly padded_len bytes written, declared length == value length, padding zero, nothing beyond touched; every shorter destination => TooSmall{expected, actual}, destination untouched'],
-    'bounded': ['raw attributes with value length 0..=8 (Kani, bounded)', 'variable-length attribute types 0..=763 B, MessageBuilder build/write_into/into_owned/clone: BX'],
+    'proved': ['(Verus, unit writers, values of ANY length) AttributeWriteExt::write_into: destination shorter than the padded length => Err(TooSmall{expected: padded, actual}) and nothing written; otherwise exactly the padded TLV (type, declared length == value length, value, zero padding) and nothing beyond it is touched, the padded length returned',
+               '(Verus) write_into_unchecked == RFC TLV layout for raw attributes, USERNAME, REALM, NONCE, SOFTWARE, ALTERNATE-DOMAIN, MESSAGE-INTEGRITY, MESSAGE-INTEGRITY-SHA256 (type invariant: multiple of 4), USERHASH, USE-CANDIDATE, PRIORITY, ICE-CONTROLLED, ICE-CONTROLLING; AttributeHeader::write_into, write_header(_unchecked)',
+               '(Verus) RawAttribute::to_bytes == the same padded TLV; to_raw() of the string types carries the type and exactly the value bytes (unit attrs) - so in-place writing and raw conversion + serialisation give identical bytes',
+               '(Kani, complete) fixed-size types incl. FINGERPRINT, XOR-MAPPED-ADDRESS, ALTERNATE-SERVER, PASSWORD-ALGORITHM: write_into == RFC layout == to_raw(); every shorter destination => TooSmall, destination untouched'],
+    'bounded': ['ERROR-CODE, UNKNOWN-ATTRIBUTES, PASSWORD-ALGORITHMS writers (helpers take `&mut dest[k..]` sub-slices: no Verus spec): BX', 'MessageBuilder build/write_into/into_owned/clone (dyn AttributeWrite, SmallVec): BX'],
     'trusted': _KX_TRUST,
 }
 
